@@ -51,7 +51,7 @@ class C05(Check):
         plan = []
         for position in range(len(programs)):
             plan.append(("enum", position))
-        seeded = 3 if tier == "quick" else 40
+        seeded = 3 if tier == "quick" else 20
         for position in range(len(programs)):
             for repeat in range(seeded):
                 plan.append(("seeded", position, repeat))
